@@ -469,11 +469,12 @@ func c06SortedKeys(m map[string][]byte) []string {
 // c06CheckImage compares a store image with the reference node set: under the path
 // scheme they must be identical (no stale, no missing node); under the hash scheme
 // every reference node must be present under its hash (old nodes are never deleted).
-func c06CheckImage(scheme string, img map[string][]byte, ref map[string][]byte) error {
+func c06CheckImage(scheme string, img map[string][]byte, r *c06Ref) error {
+	ref := r.nodes
 	if scheme == c06Hash {
 		for _, p := range c06SortedKeys(ref) {
-			h := crypto.Keccak256(ref[p])
-			if !bytes.Equal(img[string(h)], ref[p]) {
+			h := r.hashes[p] // Keccak256 of ref[p], precomputed
+			if !bytes.Equal(img[string(h[:])], ref[p]) {
 				return fmt.Errorf("hash store misses node %x (path %x) of the new trie", h, p)
 			}
 		}
@@ -811,7 +812,7 @@ func (s *c06Sys) commit() error {
 		s.store.apply(set)
 	}
 	if s.strict {
-		if err := c06CheckImage(s.store.scheme(), s.store.dump(), ref.nodes); err != nil {
+		if err := c06CheckImage(s.store.scheme(), s.store.dump(), ref); err != nil {
 			return fmt.Errorf("commit %s -> %s (nodeset nil=%v): %v", s.committed, s.model, set == nil, err)
 		}
 	}
